@@ -482,6 +482,9 @@ func ruleFragmentDisjoint(c *Ctx) {
 			})
 			return true
 		})
+		if stores == 0 {
+			why = "the encoder no longer builds a filtered copy of the user-keyed map"
+		}
 		c.ob(rule, fl.typ+".MarshalJSON:key-filter", fd.Pos(), stores > 0 && stores == guarded, why)
 	}
 
